@@ -19,7 +19,7 @@ pub fn gen_corrupt(seed: u64) -> Plan {
     o.final_drain = false;
     o.p_real = 0.0;
     // a third of the donors spread over many topics: one block per topic, so the upper blocks of a file are in use
-    o.max_topics = if rng.chance(0.33) { 7 } else { 2 };
+    o.max_topics = if rng.chance(0.33) { 6 } else { 2 };
     let mut plan = gen_seq(mix(seed, 1), &o);
     plan.property = "C11".into();
     plan.profile = "corrupt".into();
